@@ -946,9 +946,14 @@ class Check(PropertyCheck):
             for k, out in enumerate(rec["outs"]):
                 self.evaluations += 1
                 if not agrees(out, rec["exp"]):
+                    if is_infra(out) and not is_lock(out):
+                        # the insert race again, on each of three fresh backends (programs with many concurrent
+                        # sub-schedulers recording the same calls hit it almost every time): same defect, same key
+                        self.stat("oracle", "programs that lost the insert race three times in a row")
+                        break
                     nb += 1
-                    # an infrastructure failure here persisted through three attempts on fresh backends
-                    pre = "sqlite-lock" if is_lock(out) else ("sqlite-race" if is_infra(out) else "result-differs")
+                    # a lock-up here persisted through three attempts on fresh backends
+                    pre = "sqlite-lock" if is_lock(out) else "result-differs"
                     self.findings.append(Finding(f"{pre}:{spec!r}"[:200],
                                                  f"run {k + 1} (cache={rec['caches'][k]}): got {out.get('result', out.get('error'))!r:.200}, "
                                                  f"reference {rec['exp'][1]!r:.200}", rp))
@@ -972,7 +977,7 @@ class Check(PropertyCheck):
         races = [x for x in getattr(self, "infra", []) if x["error"][0] == "IntegrityError"]
         if races:
             self.findings.append(Finding(KEY_RACE, f"a program run through subrun failed with {races[0]['error']!r:.260} "
-                                                   f"(passed when run again: {races[0]['spec']:.300})",
+                                                   f"({len(races)} time(s) in this run; e.g. {races[0]['spec']:.300})",
                                          {"kind": "race", "spec": races[0]["spec"], "error": list(races[0]["error"])}))
         self.stat("oracle", "transient sqlite lock time-outs (program re-run)", sum(1 for x in getattr(self, "infra", []) if x["error"][0] == "OperationalError"))
         # the cache rule for the subrun job, on the real code
